@@ -152,3 +152,34 @@ def judge(ctx, cases, tag, shards=12):
 
 def nontrivial_rows(c):
     return len(c["res"].get("rows") or [])
+
+
+def judge_histories(ctx, cases, tag, shards=8):
+    """TLC evaluates SqlSem!HistoryOK on every statement history (case = db, ds, res); returns [(case index, first statement
+    answered wrongly)]."""
+    todo = list(range(len(cases)))
+    if not todo:
+        return []
+    shards = max(1, min(shards, len(todo) // 50 + 1))
+    parts = [todo[i::shards] for i in range(shards)]
+
+    def one(n):
+        part = parts[n]
+        nd = "".join(json.dumps(dict(db=cases[i]["db"], ds=cases[i]["ds"], res=cases[i]["hres"])) + "\n" for i in part)
+        got = []
+        for attempt, xss in enumerate(("256m", "1g")):
+            got.clear()
+            r = vlib.run_tlc(ctx, "SqlDmlJudge", "SqlSemGen.cfg", workers=1, timeout=3000, tag="%s-%d-%d" % (tag, n, attempt),
+                             files={"cases.ndjson": nd}, on_scn=lambda k, o: got.append(o), xss=xss)
+            if r.status == "ok" and got:
+                break
+        if r.status != "ok" or not got:
+            raise vlib.Undecided("SqlDmlJudge failed (shard %d)\n%s" % (n, "\n".join(r.out[-25:])))
+        if got[0]["n"] != len(part):
+            raise vlib.Undecided("SqlDmlJudge read %d of %d cases" % (got[0]["n"], len(part)))
+        return [(part[j - 1], at) for j, at in zip(got[0]["bad"], got[0]["at"])]
+    bad = []
+    with ThreadPoolExecutor(max_workers=min(shards, vlib.NCPU)) as ex:
+        for b in ex.map(one, range(shards)):
+            bad += b
+    return sorted(bad)
